@@ -60,7 +60,7 @@ def configs(ctx):
         b = {"V4": '{"v4a"}', "V6": "{}", "Relay": '{"rla"}', "Custom": '{"cua"}',
              "Rtts": "{2, 7, 10}", "SwitchMin": 5, "V6Adv": 3, "MaxLen": 3}
         return [("ms", 1000000, a), ("ms-custom", 1000000, b), ("ns", 1, ns)]
-    full = {"V4": '{"v4a", "v4b"}', "V6": '{"v6a", "v6b"}', "Relay": '{"rla", "rlb"}', "Custom": '{"cua"}',
+    full = {"V4": '{"v4a", "v4b"}', "V6": '{"v6a"}', "Relay": '{"rla"}', "Custom": '{"cua"}',
             "Rtts": "{0, 2, 5, 7, 10}", "SwitchMin": 5, "V6Adv": 3, "MaxLen": 3}
     return [("ms", 1000000, full), ("ns", 1, ns)]
 
@@ -83,6 +83,13 @@ def run(ctx):
         total += len(cases)
         if name == "ms" and not ctx.violations:
             selftest(ctx, cases)
+    # growth: no flapping over time (PathSelectDyn): the rule applied repeatedly under rtt jitter
+    dyn = {"Cands": ctx.pick('{"v4a", "v6a", "rla"}', '{"v4a", "v4b", "v6a", "rla"}'), "Bases": ctx.pick("{8, 10, 13}", "{8, 10, 12, 15}")}
+    ctx.tlc("socket", "PathSelectDyn", cfg="PathSelectDyn.cfg", constants=dict(dyn, Jit=2), timeout=2400,
+            require_actions=["Measure", "Reselect"])
+    ctx.tlc("socket", "PathSelectDyn", cfg="PathSelectDyn.cfg", constants=dict(dyn, Jit=3), timeout=2400, coverage=False,
+            expect_violation="NoReturn")
+    ctx.cov["no_flapping_under_jitter"] = "2*Jit < SwitchMin: NoReturn and BoundedChanges hold (Jit = 2); refuted for Jit = 3"
     ctx.cov["rule"] = ("every candidate list up to MaxLen over the address set x every current selection (each case = one TLC "
                        "initial state, exhaustive within the constants); non-trivial = at least one candidate has stats")
     ctx.cov["exhaustive"] = True
